@@ -3040,7 +3040,7 @@ impl Actor {
 
         let mut pledge_delta = TokenAmount::zero();
 
-        let (burn_amount, reward_amount) = rt.transaction(|st: &mut State, rt| {
+        let (mut burn_amount, reward_amount) = rt.transaction(|st: &mut State, rt| {
             let mut info = get_miner_info(rt.store(), st)?;
 
             // Verify miner hasn't already been faulted
@@ -3085,9 +3085,13 @@ impl Actor {
         })?;
 
         if let Err(e) =
-            extract_send_result(rt.send_simple(&reporter, METHOD_SEND, None, reward_amount))
+            extract_send_result(rt.send_simple(&reporter, METHOD_SEND, None, reward_amount.clone()))
         {
             error!("failed to send reward: {}", e);
+            // The reward was carved out of the penalty already repaid from fee debt.
+            // If it cannot be delivered, burn it with the rest (as dispute_windowed_post does)
+            // instead of leaving it in the miner's balance.
+            burn_amount += reward_amount;
         }
 
         burn_funds(rt, burn_amount)?;
